@@ -586,8 +586,29 @@ theorem readInt_typed (inp : Bytes) : TypedErr (readInt inp) := by
   unfold readInt at he
   repeat' (first | (cases he <;> first | exact Or.inl rfl | exact Or.inr rfl) | split at he | simp only [] at he)
 
-theorem readObjectTop_typed (file : Bytes) (pos : Nat) (getInt : Obj → Option Int) (scalarOnly : Bool) :
-    TypedErr (readObjectTop file pos getInt scalarOnly) := by
+/-- a `getInt` whose own errors are `eof` or `malformed` (true of `makeSafeGetInt`, see
+    `safeGetInt_typed`; a `getInt` that reports an I/O error makes `ReadStreamData` report it) -/
+def TypedGetInt (getInt : Obj → Except Err Int) : Prop := ∀ o, TypedErr (getInt o)
+
+theorem declaredOf_typed (getInt : Obj → Except Err Int) (hg : TypedGetInt getInt) (d : List (Bytes × Obj)) :
+    TypedErr (declaredOf getInt d) := by
+  intro e he
+  unfold declaredOf at he
+  split at he
+  · cases he
+  · rename_i o _
+    have := hg o
+    split at he
+    · cases he
+    · cases he
+    · cases he; exact Or.inr rfl
+    · rename_i e' hne1 hne2 hget
+      rcases this e' hget with rfl | rfl
+      · exact absurd rfl hne2
+      · exact absurd rfl hne1
+
+theorem readObjectTop_typed (file : Bytes) (pos : Nat) (getInt : Obj → Except Err Int) (hg : TypedGetInt getInt)
+    (scalarOnly : Bool) : TypedErr (readObjectTop file pos getInt scalarOnly) := by
   intro e he
   unfold readObjectTop at he
   repeat' (first | (cases he <;> first | exact Or.inl rfl | exact Or.inr rfl) | split at he | simp only [] at he)
@@ -596,13 +617,14 @@ theorem readObjectTop_typed (file : Bytes) (pos : Nat) (getInt : Obj → Option 
     first
     | exact (readObject_good 0 _).le.typed _ (by assumption)
     | exact (readDict_good 0 _).le.typed _ (by assumption)
-    | exact readStreamData_typed _ _ _ _ (by assumption))
+    | exact readStreamData_typed _ _ _ _ (by assumption)
+    | exact declaredOf_typed getInt hg _ _ (by assumption))
 
 /-- **`ReadIndirectObject` fails only with `eof` or `malformed`** — on every file, at every
-position, with every `getInt`, in both modes.  (These are exactly the classes `checkObjects`
-turns into `Broken`; any other class would abort the scan.) -/
-theorem readIndirect_typed (file : Bytes) (pos : Nat) (getInt : Obj → Option Int) (scalarOnly : Bool) :
-    TypedErr (readIndirect file pos getInt scalarOnly) := by
+position, in both modes, with every `getInt` whose own errors are of these two classes.  (These
+are exactly the classes `checkObjects` turns into `Broken`; any other class would abort the scan.) -/
+theorem readIndirect_typed (file : Bytes) (pos : Nat) (getInt : Obj → Except Err Int) (hg : TypedGetInt getInt)
+    (scalarOnly : Bool) : TypedErr (readIndirect file pos getInt scalarOnly) := by
   intro e he
   unfold readIndirect at he
   repeat' (first | (cases he <;> first | exact Or.inl rfl | exact Or.inr rfl) | split at he | simp only [] at he)
@@ -610,7 +632,23 @@ theorem readIndirect_typed (file : Bytes) (pos : Nat) (getInt : Obj → Option I
     cases he
     first
     | exact readInt_typed _ _ (by assumption)
-    | exact readObjectTop_typed _ _ _ _ _ (by assumption))
+    | exact readObjectTop_typed _ _ _ hg _ _ (by assumption))
+
+/-- the `getInt` of `makeSafeGetInt` fails only with `eof` or `malformed` -/
+theorem safeGetInt_typed (file : Bytes) (secs : List HIS.Section) : ∀ (fuel : Nat) (seen : List (Nat × Nat)) (o : Obj),
+    TypedErr (safeGetInt file secs fuel seen o).2 := by
+  intro fuel
+  induction fuel with
+  | zero => intro seen o e he; simp [safeGetInt] at he; exact Or.inr he.symm
+  | succ fuel ih =>
+    intro seen o e he
+    unfold safeGetInt at he
+    have hnested : TypedGetInt (fun _ => (Except.error Err.malformed : Except Err Int)) := by
+      intro _ e' h'; cases h'; exact Or.inr rfl
+    repeat' (first | (cases he <;> first | exact Or.inl rfl | exact Or.inr rfl) | split at he | simp only [] at he)
+    all_goals first
+      | exact ih _ _ _ he
+      | (cases he; exact readIndirect_typed _ _ _ hnested _ _ (by assumption))
 
 /-- **The scan never aborts while checking objects.**  For every file, every set of located
 sections and every located header, `checkObjects` either records the object with its type or
@@ -619,7 +657,8 @@ outright after `locateObjects` found something). -/
 theorem checkObject_total (file : Bytes) (secs : List HIS.Section) (fo : FileObject) :
     ∃ c, checkObject file secs fo = .ok c := by
   unfold checkObject
-  have ht := readIndirect_typed file fo.start (fun o => (safeGetInt file secs 12 [] o).2) false
+  have ht := readIndirect_typed file fo.start (fun o => (safeGetInt file secs 12 [] o).2)
+    (fun o => safeGetInt_typed file secs 12 [] o) false
   simp only []
   split
   · exact ⟨_, rfl⟩
@@ -700,7 +739,7 @@ theorem readInt_suffix {inp file : Bytes} (h : IsSuffix inp file) {i : Int} {r :
       · cases hr
 
 /-- **A successful `ReadIndirectObject` has seen the keyword `endobj`.** -/
-theorem ok_implies_endobj (file : Bytes) (pos : Nat) (getInt : Obj → Option Int) (scalarOnly : Bool)
+theorem ok_implies_endobj (file : Bytes) (pos : Nat) (getInt : Obj → Except Err Int) (scalarOnly : Bool)
     (ind : Indirect) (h : readIndirect file pos getInt scalarOnly = .ok ind) :
     ∃ q, isPrefixOf kwEndobj (file.drop q) = true := by
   unfold readIndirect at h
@@ -765,10 +804,10 @@ prefix of `N G obj … endobj` whose body does not contain the keyword — `Read
 at any position returns `eof` or `malformed`: the object is reported as `Broken`, never as a
 complete object and never as an error that aborts the scan. -/
 theorem prefix_without_endobj_fails (p : Bytes) (hp : NoEndobj p) (pos : Nat)
-    (getInt : Obj → Option Int) (scalarOnly : Bool) :
+    (getInt : Obj → Except Err Int) (hg : TypedGetInt getInt) (scalarOnly : Bool) :
     ∃ e, readIndirect p pos getInt scalarOnly = .error e ∧ (e = .eof ∨ e = .malformed) := by
   cases h : readIndirect p pos getInt scalarOnly with
-  | error e => exact ⟨e, rfl, readIndirect_typed p pos getInt scalarOnly e h⟩
+  | error e => exact ⟨e, rfl, readIndirect_typed p pos getInt hg scalarOnly e h⟩
   | ok ind =>
     obtain ⟨q, hq⟩ := ok_implies_endobj p pos getInt scalarOnly ind h
     rw [hp q] at hq; cases hq
@@ -780,13 +819,13 @@ or name the "never succeeds" half needs the prefix-stability of the whole parser
 proved (the typed half, `readIndirect_typed`, holds for all inputs). -/
 def prefix_errors_typed : Prop :=
   ∀ (hdrBody : Bytes) (t : Nat), t < (hdrBody ++ 10 :: kwEndobj).length →
-    (∃ ind, readIndirect (hdrBody ++ 10 :: kwEndobj) 0 (fun _ => none) false = .ok ind ∧ ind.endPos = (hdrBody ++ 10 :: kwEndobj).length) →
-    ∃ e, readIndirect ((hdrBody ++ 10 :: kwEndobj).take t) 0 (fun _ => none) false = .error e ∧ (e = .eof ∨ e = .malformed)
+    (∃ ind, readIndirect (hdrBody ++ 10 :: kwEndobj) 0 (fun _ => .error .malformed) false = .ok ind ∧ ind.endPos = (hdrBody ++ 10 :: kwEndobj).length) →
+    ∃ e, readIndirect ((hdrBody ++ 10 :: kwEndobj).take t) 0 (fun _ => .error .malformed) false = .error e ∧ (e = .eof ∨ e = .malformed)
 
 theorem prefix_errors_typed_partial (hdrBody : Bytes) (hb : NoEndobj (hdrBody ++ [10, 101, 110, 100, 111, 98]))
-    (t : Nat) (ht : t < (hdrBody ++ 10 :: kwEndobj).length) (getInt : Obj → Option Int) :
+    (t : Nat) (ht : t < (hdrBody ++ 10 :: kwEndobj).length) (getInt : Obj → Except Err Int) (hg : TypedGetInt getInt) :
     ∃ e, readIndirect ((hdrBody ++ 10 :: kwEndobj).take t) 0 getInt false = .error e ∧ (e = .eof ∨ e = .malformed) := by
-  apply prefix_without_endobj_fails
+  apply prefix_without_endobj_fails _ _ _ _ hg
   intro q
   -- a strict prefix of the whole is a prefix of the whole without its last byte
   have hpre : (hdrBody ++ 10 :: kwEndobj).take t = (hdrBody ++ [10, 101, 110, 100, 111, 98]).take t := by
